@@ -31,7 +31,7 @@ SUITE=$(go test -vet=off -count=1 ./... 2>&1 | grep -v '^ok' | head -5)
 mkdir -p demo && cp "$DEMO" demo/demo_test.go
 if timeout 300 go test -vet=off -count=1 ./demo/ >$LOGP-demo1.log 2>&1; then echo "demo PASSES with the change (not a confirmed break)"; exit 4; else echo "demo: fails with the change"; fi
 # (never git stash here: the stash list is shared by all worktrees of a repository, /repo included)
-(cd $WT && git checkout -q -- . 2>/dev/null; git status --short | grep -v demo | head -3)
+(cd $WT && git reset -q && git checkout -q -- . 2>/dev/null; git status --short | grep -v demo | head -3)
 if timeout 300 go test -vet=off -count=1 ./demo/ >$LOGP-demo2.log 2>&1; then echo "demo: passes without the change"; else echo "demo FAILS without the change:"; tail -5 $LOGP-demo2.log; exit 4; fi
 cd $VROOT
 # now against the repository itself
